@@ -46,7 +46,7 @@ ASSUMPTIONS = [
 FLOORS = {
     'quick': {'cut_committed': 4000, 'scope:option': 500, 'scope:optional': 200, 'scope:closure-iteration-1': 100,
               'scope:closure-iteration-n': 200, 'scope:join-after-separator': 200, 'scope:under-lookahead': 150, 'gen_compared': 15000,
-              'metamorphic_checked': 15000, 'variants': 900, 'variants_with_cut_reached_through_include': 25, 'nested_choice_family': 100, 'nested_choice_family:include': 20, 'nested_choice_family:optwrap-include': 10, 'config:memoization': 100, 'config:prune_memos_on_cut': 100,
+              'metamorphic_checked': 15000, 'variants': 900, 'variants_with_cut_reached_through_include': 25, 'nested_choice_family': 100, 'nested_choice_family:include': 20, 'nested_choice_family:optwrap-include': 10, 'nested_choice_family:la-semfail': 25, 'config:memoization': 100, 'config:prune_memos_on_cut': 100,
               # left-recursive family (measured minima over seeds 0,1,2,3,7,11: 32 / 16 / 348 / 3863 / 1674 / 2004 / 5208 / 827 / 149)
               'lr_family': 24, 'lr_family:shared-prefix': 8, 'lr_family:variants': 250, 'lr:accepted_after_growth': 2000,
               'lr:cut_committed+grown': 800, 'lr:cut_passed+grown+backtracked+no_commit': 1000,
@@ -352,6 +352,26 @@ def nested_choice_grammar(rng):
     return L.Grammar(rules), how
 
 
+def lookahead_semfail_grammar(rng):
+    """a lookahead whose body passes a cut and then meets a SEMANTIC failure (a constant that fails to evaluate) inside an
+    inner scope; the lookahead stands at the head of one option of an outer choice.  Whatever the lookahead answers, its cut
+    and its states must be gone afterwards: the outer choice still tries its other options"""
+    T = L.Tok
+    t1, t2, t3, t4 = rng.sample('abcd', 4)
+    fc = L.Const(rng.choice(R.FAILING_CONSTS))
+    inner = rng.choice([L.Group(L.Choice((fc, T(t2)))), L.Opt(fc), L.Group(L.Choice((T(t2), fc))), L.Clo(L.Seq((T(t2), fc))),
+                        L.Opt(L.Seq((T(t2), fc)))])
+    body = L.Seq((T(t1), L.Cut(), inner) if rng.random() < 0.7 else (T(t1), inner, L.Cut()))
+    la = (L.NLA if rng.random() < 0.6 else L.LA)(L.Group(body))
+    opts = [L.Seq((la, T(t1), T(t3))), L.Seq((T(t1), T(t4)))]
+    if rng.random() < 0.4:
+        opts.append(L.Seq((T(t1), T(t2))))
+    start = L.Choice(tuple(opts))
+    if rng.random() < 0.5:
+        return L.Grammar([L.Rule('start', L.Seq((L.Call('body'), L.EOF()))), L.Rule('body', start)]), 'la-semfail'
+    return L.Grammar([L.Rule('start', start)]), 'la-semfail'
+
+
 def nested_choice_inputs(rng):
     import itertools
     out = []
@@ -366,7 +386,7 @@ def nested_choice_inputs(rng):
 def run_nested(desc, acc):
     for i in range(desc['n'] // 2 + 1):
         rng = random.Random(h64('C05', 'nested', desc['seed'], desc['shard'], i))
-        gv, how = nested_choice_grammar(rng)
+        gv, how = nested_choice_grammar(rng) if i % 4 != 3 else lookahead_semfail_grammar(rng)
         gv = L.Grammar([L.Rule(r.name, G.normalise(r.body)) for r in gv.rules])
         g0 = strip_cuts(gv)
         base_case = D.Case(g0, 'start')
